@@ -274,7 +274,11 @@ BadEnum(sub, en, c) ==
 
 \* a well-typed expression of a type the position does not accept (root of a slot only)
 BadPosition(slot, c) ==
-  CASE slot \in {"start", "size", "len", "enumv"} -> {V(SiteRule(slot), w) : w \in NotInt(c)}
+  CASE slot \in {"start", "size", "len"} -> {V(SiteRule(slot), w) : w \in NotInt(c)}
+    \* an enum value given as (a reference to) another enum value is left unconstrained: the reference calls enums
+    \* "named integers" but never says how a value may be written, and the repository's own testdata
+    \* (testdata/enum.emb: DUPLICATE_LARGE_VALUE = LARGE_VALUE) relies on it; a boolean is unambiguously wrong
+    [] slot = "enumv" -> {V(SiteRule(slot), WBool)}
     [] slot \in {"cond", "sreq", "freq"}          -> {V(SiteRule(slot), w) : w \in NotBool(c)}
     [] slot = "amax" -> {V(SiteRule(slot), w) : w \in {WBool, WEnum(AnEnum(c)), EStr("x")}}
     [] slot = "asig" -> {V(SiteRule(slot), w) : w \in {WInt, EStr("true")}}
